@@ -268,7 +268,10 @@ func c15History(c *vctx, rng *vrng, num int, steps int) error {
 		cancel()
 		// the real check
 		_, cse, kerr := e.cli("check", "--read-data")
-		cmd := strings.Join(args[:min(2, len(args))], "-")
+		cmd := args[0]
+		if len(args) > 1 && (strings.HasPrefix(args[1], "--") || args[0] == "repair") {
+			cmd += "-" + strings.TrimLeft(args[1], "-")
+		}
 		st := "ok"
 		if crashed {
 			st = fmt.Sprintf("cut@%d", cut)
@@ -297,7 +300,7 @@ func engineC15(c *vctx) error {
 	c.Preamble("Open Scope N_scope.")
 	repository.VerifC15SetLockWait(time.Millisecond)
 	defer os.RemoveAll(filepath.Join("/dev/shm", fmt.Sprintf("verif-c15-%d", os.Getpid())))
-	nh := c.n(8, 120)
+	nh := c.n(6, 120)
 	for i := 0; i < nh; i++ {
 		rng := c.rng.fork()
 		if err := c15History(c, rng, i, 5+rng.intn(6)); err != nil {
